@@ -110,34 +110,61 @@ Proof.
       cbn. exact IH.
 Qed.
 
+(* ---------------------------------------------------------------- the limit check *)
+(* assembly.go:723-724, evaluated when a packet of n pages has just been buffered *)
+Definition limit_cond (mp mt pg used n : Z) : bool :=
+  ((mp >? 0) && (pg + n >=? mp)) || ((mt >? 0) && (used + n >=? mt)).
+
+(* does a page limit fire in this step (provided the segment is buffered at all) *)
+Definition limit_fires (st : state) (o : op) : bool :=
+  match o with
+  | Segment seq syn fin rst payload ts goff =>
+    limit_cond (s_maxPer st) (s_maxTotal st) (conn_pages st) (s_used st)
+               (lenZ (pages_from_tcp seq payload (rst || fin) ts goff))
+  | _ => false
+  end.
+
+Lemma limit_cond_off mp mt pg used n : mp <= 0 -> mt <= 0 -> limit_cond mp mt pg used n = false.
+Proof. intros. unfold limit_cond. lia. Qed.
+
 (* ---------------------------------------------------------------- the stream invariant *)
 Section Stream.
 Variable i : Z.
 Variable S : list Z.
 Hypothesis Hi : 0 <= i < uint32Size.
-(* window hypothesis in its simplest sufficient form: the whole stream is shorter than 2^30,
-   so that all live offsets lie in an interval of width < 2^30 (any ISN, including the wrap) *)
-Hypothesis HS : lenZ S < quarter.
 
-Definition pair_ok (sb : Z * list Z) : Prop :=
-  exists o, 0 <= o /\ o + lenZ (snd sb) <= lenZ S /\ fst sb = sq i o /\ snd sb = sub S o (lenZ (snd sb)).
+(* an interval of width < 2^30 starting at lo *)
+Definition inw (lo x : Z) : Prop := lo <= x < lo + quarter.
 
+(* page p holds S[p_off p, page_end p) and carries the sequence number of its offset *)
 Definition page_ok (p : page) : Prop :=
-  pair_ok (p_seq p, r_bytes (p_r p)) /\ r_skip (p_r p) = 0 /\ r_start (p_r p) = false.
+  0 <= p_off p /\ page_end p <= lenZ S /\ p_seq p = sq i (p_off p) /\
+  r_bytes (p_r p) = sub S (p_off p) (lenZ (r_bytes (p_r p))) /\
+  r_skip (p_r p) = 0 /\ r_start (p_r p) = false.
+Definition page_in (lo : Z) (p : page) : Prop := inw lo (p_off p) /\ inw lo (page_end p).
 
-Lemma split_pages_ok fuel : forall o n, 0 <= o -> 0 <= n -> o + n <= lenZ S ->
-  Forall pair_ok (split_pages fuel (sq i o) (sub S o n)).
+(* pages of one packet: consecutive offsets from o, inside [o, hi] *)
+Fixpoint pairs_at (o hi : Z) (l : list (Z * list Z)) : Prop :=
+  match l with
+  | [] => True
+  | (s, b) :: t => s = sq i o /\ b = sub S o (lenZ b) /\ 0 <= o /\ o + lenZ b <= hi /\ hi <= lenZ S /\
+                   pairs_at (o + lenZ b) hi t
+  end.
+
+Lemma split_pages_at fuel : forall o n, 0 <= o -> 0 <= n -> o + n <= lenZ S ->
+  pairs_at o (o + n) (split_pages fuel (sq i o) (sub S o n)).
 Proof.
-  induction fuel as [|f IH]; intros o n Ho Hn Hon; cbn [split_pages]; [constructor|].
+  induction fuel as [|f IH]; intros o n Ho Hn Hon; cbn [split_pages]; [exact I|].
   rewrite sub_length by lia.
   assert (Hk : 0 <= Z.min n pageBytes <= n) by (unfold pageBytes; lia).
   set (k := Z.min n pageBytes) in *.
   rewrite sub_firstn by lia. rewrite sub_skipn by lia.
-  assert (P0 : pair_ok (sq i o, sub S o k)).
-  { exists o. cbn [fst snd]. rewrite sub_length by lia. repeat split; try lia. }
+  assert (P0 : forall t, pairs_at (o + k) (o + n) t -> pairs_at o (o + n) ((sq i o, sub S o k) :: t)).
+  { intros t Ht. cbn [pairs_at]. rewrite sub_length by lia. repeat split; try lia; assumption. }
   destruct (sub S (o + k) (n - k)) eqn:E.
-  - constructor; [exact P0|constructor].
-  - constructor; [exact P0|]. rewrite <- E. rewrite sq_add. apply IH; lia.
+  - apply P0. exact I.
+  - apply P0. rewrite <- E. rewrite sq_add.
+    replace (o + n) with ((o + k) + (n - k)) by lia. apply IH; lia.
 Qed.
 
 Lemma split_pages_head f seq bytes :
@@ -163,35 +190,37 @@ Proof.
       lia.
 Qed.
 
-Lemma mark_last_end_ok e ts l : Forall pair_ok l -> Forall page_ok (mark_last_end e ts l).
+Lemma mark_last_end_ok e ts l : forall o hi, pairs_at o hi l ->
+  Forall page_ok (mark_last_end e ts o l) /\
+  Forall (fun p => o <= p_off p /\ page_end p <= hi) (mark_last_end e ts o l).
 Proof.
-  induction l as [|[s b] t IH]; intros H; [constructor|].
-  inversion H as [|x y Hx Hy]; subst. cbn [mark_last_end].
+  induction l as [|[s b] t IH]; intros o hi H; [split; constructor|].
+  cbn [pairs_at] in H. destruct H as (Hs & Hb & Ho & Hh & HhS & Ht). cbn [mark_last_end].
+  pose proof (lenZ_nonneg b) as Hnb.
+  assert (P : forall e0, page_ok (mkP (mkR b 0 false e0 ts 0) s o) /\
+                         (o <= p_off (mkP (mkR b 0 false e0 ts 0) s o) /\ page_end (mkP (mkR b 0 false e0 ts 0) s o) <= hi)).
+  { intros e0. unfold page_ok, page_end. cbn [p_off p_seq p_r r_bytes r_skip r_start]. repeat split; try lia; assumption. }
   destruct t as [|sb t'].
-  - constructor; [|constructor]. split; [exact Hx|split; reflexivity].
-  - constructor; [split; [exact Hx|split; reflexivity]|]. apply IH; exact Hy.
+  - split; (constructor; [apply P|constructor]).
+  - destruct (IH _ _ Ht) as [I1 I2]. split; (constructor; [apply P|]); [exact I1|].
+    eapply Forall_impl; [|exact I2]. cbn beta. intros p [Hp1 Hp2]. split; lia.
 Qed.
 
-Lemma mark_last_end_head e ts s b t :
-  exists p t', mark_last_end e ts ((s, b) :: t) = p :: t' /\ p_seq p = s.
+Lemma mark_last_end_head e ts o s b t :
+  exists p t', mark_last_end e ts o ((s, b) :: t) = p :: t' /\ p_seq p = s.
 Proof.
   cbn [mark_last_end]. destruct t; eexists; eexists; split; reflexivity.
 Qed.
 
-Lemma mark_last_end_length e ts l : length (mark_last_end e ts l) = length l.
-Proof.
-  induction l as [|[s b] t IH]; [reflexivity|]. cbn [mark_last_end].
-  destruct t; [reflexivity|]. cbn [length] in *. rewrite IH. reflexivity.
-Qed.
-
 Lemma pages_from_tcp_ok o n e ts : 0 <= o -> 0 <= n -> o + n <= lenZ S ->
-  Forall page_ok (pages_from_tcp (sq i o) (sub S o n) e ts).
+  Forall page_ok (pages_from_tcp (sq i o) (sub S o n) e ts o) /\
+  Forall (fun p => o <= p_off p /\ page_end p <= o + n) (pages_from_tcp (sq i o) (sub S o n) e ts o).
 Proof.
-  intros. unfold pages_from_tcp. apply mark_last_end_ok. apply split_pages_ok; assumption.
+  intros. unfold pages_from_tcp. apply mark_last_end_ok. apply split_pages_at; assumption.
 Qed.
 
-Lemma pages_from_tcp_head seq bytes e ts :
-  exists p t, pages_from_tcp seq bytes e ts = p :: t /\ p_seq p = seq.
+Lemma pages_from_tcp_head seq bytes e ts o :
+  exists p t, pages_from_tcp seq bytes e ts o = p :: t /\ p_seq p = seq.
 Proof.
   unfold pages_from_tcp. destruct (split_pages_head (length bytes) seq bytes) as (b & t & E).
   rewrite E. apply mark_last_end_head.
@@ -251,97 +280,132 @@ Definition pos_ok (pos : option Z) : Prop :=
 Definition head_ok (pos : option Z) (q : list page) : Prop :=
   match pos, q with Some a, p :: _ => difference (sq i a) (p_seq p) > 0 | _, _ => True end.
 
-(* connection invariant between API calls (conn_ok) and inside one (conn_pre) *)
+(* connection invariant between API calls (conn_ok) and inside one (conn_pre); the ghost
+   c_pos is the position *)
 Definition conn_pre (c : conn) (pos : option Z) : Prop :=
-  c_nextSeq c = enc pos /\ pos_ok pos /\ Forall page_ok (c_queue c).
+  c_nextSeq c = enc pos /\ pos_ok pos /\ (forall a, pos = Some a -> c_pos c = a) /\
+  Forall page_ok (c_queue c).
 Definition conn_ok (c : conn) (pos : option Z) : Prop :=
   conn_pre c pos /\ head_ok pos (c_queue c).
+(* the live offsets of the connection lie in the window starting at lo *)
+Definition conn_win (lo : Z) (c : conn) (pos : option Z) : Prop :=
+  (forall a, pos = Some a -> inw lo a) /\ Forall (page_in lo) (c_queue c).
 
 Lemma enc_some_ne a : sq i a =? invalidSequence = false.
 Proof. pose proof (sq_range i a). unfold invalidSequence. lia. Qed.
 
-(* ---- popping one page *)
-Lemma pop_page_spec p pos : page_ok p -> pos_ok pos ->
-  exists a', chunk pos (fst (pop_page (enc pos) p)) (Some a') /\
-             snd (pop_page (enc pos) p) = sq i a' /\ 0 <= a' <= lenZ S /\
-             (forall a, pos = Some a -> a <= a') /\
-             (forall a, pos = Some a -> difference (sq i a) (p_seq p) <= 0 ->
-                        r_skip (fst (pop_page (enc pos) p)) = 0).
+(* the position after popping page p *)
+Definition pos_after (pos : option Z) (p : page) : Z :=
+  match pos with None => page_end p | Some a => Z.max a (page_end p) end.
+
+Lemma pop_gpos_after pos gp p : (forall a, pos = Some a -> gp = a) ->
+  pop_gpos (enc pos) gp p = pos_after pos p.
 Proof.
-  intros [(o & Ho & Hon & Hseq & Hb) [Hsk Hst]] Hpos.
-  destruct p as [[bs sk st en seen cut] seq]. cbn [fst snd p_r p_seq r_bytes r_skip r_start] in *.
+  intros H. unfold pop_gpos, pos_after. destruct pos as [a|]; cbn [enc].
+  - rewrite enc_some_ne. rewrite (H a eq_refl). reflexivity.
+  - reflexivity.
+Qed.
+
+(* ---- popping one page *)
+Lemma pop_page_spec p pos lo : page_ok p -> pos_ok pos -> page_in lo p ->
+  (forall a, pos = Some a -> inw lo a) ->
+  chunk pos (fst (pop_page (enc pos) p)) (Some (pos_after pos p)) /\
+  snd (pop_page (enc pos) p) = sq i (pos_after pos p) /\ 0 <= pos_after pos p <= lenZ S /\
+  inw lo (pos_after pos p) /\
+  (forall a, pos = Some a -> difference (sq i a) (p_seq p) <= 0 ->
+             r_skip (fst (pop_page (enc pos) p)) = 0).
+Proof.
+  intros (Ho & Hon & Hseq & Hb & Hsk & Hst) Hpos [Hw1 Hw2] Hwa.
+  destruct p as [[bs sk st en seen cut] seq o].
+  unfold pos_after, page_end, inw in *. cbn [p_r p_seq p_off r_bytes r_skip r_start] in *.
   pose proof (lenZ_nonneg bs) as Hn. remember (lenZ bs) as n eqn:Heqn.
   subst bs sk st seq. clear Heqn.
   unfold pop_page. cbn [p_r p_seq r_bytes r_skip r_start r_end r_seen].
   destruct pos as [a|]; cbn [enc pos_ok] in *.
-  - rewrite enc_some_ne.
-    rewrite byte_span_spec by (unfold quarter in *; lia).
+  - specialize (Hwa a eq_refl). rewrite enc_some_ne.
+    rewrite byte_span_spec by lia.
     rewrite diff_sq by (unfold quarter in *; lia).
     destruct (a <=? o) eqn:E1.
-    + exists (o + n). cbn [fst snd].
+    + cbn [fst snd]. replace (Z.max a (o + n)) with (o + n) by lia.
       assert (Hsk' : (if o - a >? 0 then o - a else 0) = o - a).
       { destruct (o - a >? 0) eqn:E; lia. }
-      rewrite Hsk'. split; [|split; [reflexivity|split; [lia|split; [intros ? [= <-]; lia|]]]].
+      rewrite Hsk'. split; [|split; [reflexivity|split; [lia|split; [lia|]]]].
       * apply ch_known'; cbn [r_start r_skip r_bytes]; rewrite ?sub_length by lia; try lia; try reflexivity.
         f_equal; lia.
       * intros a0 [= <-] Hd. cbn [r_skip]. rewrite diff_sq in Hd by (unfold quarter in *; lia). lia.
     + replace (o - a >? 0) with false by lia.
       destruct (o + n <? a) eqn:E2.
-      * exists a. cbn [fst snd]. split; [|split; [reflexivity|split; [lia|split; [intros ? [= <-]; lia|reflexivity]]]].
+      * cbn [fst snd]. replace (Z.max a (o + n)) with a by lia.
+        split; [|split; [reflexivity|split; [lia|split; [lia|reflexivity]]]].
         apply ch_known'; cbn [r_start r_skip r_bytes]; change (lenZ (@nil Z)) with 0; try lia; reflexivity.
-      * exists (o + n). cbn [fst snd]. split; [|split; [reflexivity|split; [lia|split; [intros ? [= <-]; lia|reflexivity]]]].
+      * cbn [fst snd]. replace (Z.max a (o + n)) with (o + n) by lia.
+        split; [|split; [reflexivity|split; [lia|split; [lia|reflexivity]]]].
         apply ch_known'; cbn [r_start r_skip r_bytes]; rewrite ?sub_length by lia; try lia; try reflexivity.
         f_equal; lia.
   - change (invalidSequence =? invalidSequence) with true. cbv iota.
-    rewrite byte_span_invalid. cbn [fst snd]. exists (o + n).
-    rewrite sq_add, sub_length by lia. split; [|split; [reflexivity|split; [lia|split; intros ? [=]]]].
+    rewrite byte_span_invalid. cbn [fst snd].
+    rewrite sq_add, sub_length by lia. split; [|split; [reflexivity|split; [lia|split; [lia|intros ? [=]]]]].
     apply ch_unknown' with (o := o); cbn [r_start r_skip r_bytes]; rewrite ?sub_length by lia; try lia; reflexivity.
 Qed.
 
 Definition skip0 (r : reassembly) : Prop := r_skip r = 0.
 
 (* ---- addContiguous *)
-Lemma contiguous_spec q : forall a, Forall page_ok q -> 0 <= a <= lenZ S ->
+Lemma contiguous_spec q lo : forall a, Forall page_ok q -> Forall (page_in lo) q ->
+  0 <= a <= lenZ S -> inw lo a ->
   exists a', chunks (Some a) (fst (fst (contiguous q (sq i a)))) (Some a') /\
-    snd (contiguous q (sq i a)) = sq i a' /\ a <= a' <= lenZ S /\
+    snd (contiguous q (sq i a)) = sq i a' /\ a <= a' <= lenZ S /\ inw lo a' /\
+    a' = fold_left (fun g p => Z.max g (page_end p))
+                   (firstn (length (fst (fst (contiguous q (sq i a))))) q) a /\
     Forall page_ok (snd (fst (contiguous q (sq i a)))) /\
+    Forall (page_in lo) (snd (fst (contiguous q (sq i a)))) /\
     head_ok (Some a') (snd (fst (contiguous q (sq i a)))) /\
     Forall skip0 (fst (fst (contiguous q (sq i a)))) /\
     (length (fst (fst (contiguous q (sq i a)))) + length (snd (fst (contiguous q (sq i a)))) = length q)%nat.
 Proof.
-  induction q as [|p t IH]; intros a Hq Ha.
-  - exists a. cbn. repeat split; try constructor; lia.
-  - inversion Hq as [|x y Hp Ht]; subst. cbn [contiguous].
+  induction q as [|p t IH]; intros a Hq Hw Ha Hwa.
+  - exists a. cbn. repeat split; try constructor; try lia; apply Hwa.
+  - inversion Hq as [|x y Hp Ht]; subst. inversion Hw as [|x y Hwp Hwt]; subst. cbn [contiguous].
     destruct (difference (sq i a) (p_seq p) <=? 0) eqn:D.
-    + destruct (pop_page_spec p (Some a) Hp Ha) as (a1 & Hc & Hn & Ha1 & Hmono & Hsk).
-      cbn [enc] in *. destruct (pop_page (sq i a) p) as [r ns1]. cbn [fst snd] in *. subst ns1.
-      specialize (Hmono a eq_refl). specialize (Hsk a eq_refl ltac:(lia)).
-      destruct (IH a1 Ht Ha1) as (a2 & Hc2 & Hn2 & Ha2 & Hq2 & Hh2 & Hs2 & Hl2).
+    + destruct (pop_page_spec p (Some a) lo Hp Ha Hwp) as (Hc & Hn & Ha1 & Hw1 & Hsk).
+      { intros ? [= <-]; exact Hwa. }
+      cbn [enc pos_after] in *. set (a1 := Z.max a (page_end p)) in *.
+      destruct (pop_page (sq i a) p) as [r ns1]. cbn [fst snd] in *. subst ns1.
+      specialize (Hsk a eq_refl ltac:(lia)).
+      destruct (IH a1 Ht Hwt Ha1 Hw1) as (a2 & Hc2 & Hn2 & Ha2 & Hw2 & Hg2 & Hq2 & Hqw2 & Hh2 & Hs2 & Hl2).
       destruct (contiguous t (sq i a1)) as [[rs q'] ns2]. cbn [fst snd] in *.
-      exists a2. repeat split; try assumption; try lia.
+      exists a2. repeat split; try assumption; try lia; try apply Hw2.
       * econstructor; eassumption.
       * constructor; assumption.
       * cbn [length]. lia.
-    + exists a. cbn [fst snd length]. repeat split; try constructor; try assumption; try lia.
+    + exists a. cbn [fst snd length firstn fold_left]. repeat split; try constructor; try assumption; try lia; try apply Hwa.
       cbn [head_ok]. lia.
 Qed.
 
-Lemma add_contiguous_spec w a : conn_pre (w_c w) (Some a) ->
+Lemma add_contiguous_spec w a lo : conn_pre (w_c w) (Some a) -> conn_win lo (w_c w) (Some a) ->
   exists a' rs, w_ret (add_contiguous w) = w_ret w ++ rs /\ chunks (Some a) rs (Some a') /\
-     conn_ok (w_c (add_contiguous w)) (Some a') /\ Forall skip0 rs /\ a <= a' /\
+     conn_ok (w_c (add_contiguous w)) (Some a') /\ conn_win lo (w_c (add_contiguous w)) (Some a') /\
+     Forall skip0 rs /\ a <= a' /\
      (length (c_queue (w_c (add_contiguous w))) <= length (c_queue (w_c w)))%nat.
 Proof.
-  intros (Hns & Hpos & Hq). destruct w as [[pg q ns ls] used ret]. cbn [w_c c_nextSeq c_queue enc pos_ok] in *.
-  subst ns. destruct (contiguous_spec q a Hq Hpos) as (a' & Hc & Hn & Ha & Hq' & Hh & Hs & Hl).
-  unfold add_contiguous. cbn [w_c c_queue c_nextSeq c_pages c_lastSeen w_used w_ret].
+  intros (Hns & Hpos & Hg & Hq) [Hwa Hwq]. destruct w as [[pg q ns ls gp] used ret].
+  cbn [w_c c_nextSeq c_queue c_pos enc pos_ok] in *.
+  subst ns. specialize (Hg a eq_refl). subst gp.
+  destruct (contiguous_spec q lo a Hq Hwq Hpos (Hwa a eq_refl))
+    as (a' & Hc & Hn & Ha & Hw' & Hgh & Hq' & Hqw' & Hh & Hs & Hl).
+  unfold add_contiguous. cbn [w_c c_queue c_nextSeq c_pages c_lastSeen c_pos w_used w_ret].
   destruct (contiguous q (sq i a)) as [[rs q'] ns']. cbn [fst snd] in *. subst ns'.
-  exists a', rs. cbn [w_ret w_c c_queue]. repeat split; try assumption; try lia.
+  exists a', rs. cbn [w_ret w_c c_queue c_nextSeq c_pos].
+  split; [reflexivity|]. split; [exact Hc|]. split; [|split; [|split; [exact Hs|split; [lia|lia]]]].
+  - split; [|exact Hh]. split; [reflexivity|]. split; [cbn; lia|]. split; [|exact Hq'].
+    intros ? [= <-]. symmetry. exact Hgh.
+  - split; [|exact Hqw']. intros ? [= <-]. exact Hw'.
 Qed.
 
-Definition res_ok (pstart : option Z) (r : res) : Prop :=
+Definition res_ok (lo : Z) (pstart : option Z) (r : res) : Prop :=
   exists pos', chunks pstart (concat (rs_calls r)) pos' /\
     match rs_conn r with
-    | Some c => conn_ok c pos' /\ rs_done r = false
+    | Some c => conn_ok c pos' /\ conn_win lo c pos' /\ rs_done r = false
     | None => rs_done r = true
     end.
 
@@ -349,18 +413,18 @@ Lemma concat_snoc {A} (ls : list (list A)) (l : list A) : concat (ls ++ [l]) = c
 Proof. rewrite concat_app. cbn. rewrite app_nil_r. reflexivity. Qed.
 
 (* ---- sendToConnection *)
-Lemma send_spec w a pstart pmid free calls :
-  conn_pre (w_c w) (Some a) -> w_ret w <> [] ->
+Lemma send_spec w a lo pstart pmid free calls :
+  conn_pre (w_c w) (Some a) -> conn_win lo (w_c w) (Some a) -> w_ret w <> [] ->
   chunks pstart (concat calls) pmid -> chunks pmid (w_ret w) (Some a) ->
-  exists r, send_to_connection w free calls = Ok r /\ res_ok pstart r /\
+  exists r, send_to_connection w free calls = Ok r /\ res_ok lo pstart r /\
     (exists rs, rs_calls r = calls ++ [w_ret w ++ rs] /\ Forall skip0 rs) /\
     match rs_conn r with
     | Some c => (length (c_queue c) <= length (c_queue (w_c w)))%nat
     | None => True
     end.
 Proof.
-  intros Hpre Hne Hc1 Hc2. unfold send_to_connection.
-  destruct (add_contiguous_spec w a Hpre) as (a' & rs & Hret & Hcs & Hok & Hs0 & Hmono & Hlen).
+  intros Hpre Hwin Hne Hc1 Hc2. unfold send_to_connection.
+  destruct (add_contiguous_spec w a lo Hpre Hwin) as (a' & rs & Hret & Hcs & Hok & Hwin' & Hs0 & Hmono & Hlen).
   set (w1 := add_contiguous w) in *.
   destruct (rev (w_ret w1)) as [|lastr tl] eqn:ER.
   - exfalso. apply (f_equal (@rev _)) in ER. rewrite rev_involutive in ER. cbn in ER.
@@ -374,7 +438,7 @@ Proof.
       * exists rs. cbn [rs_calls]. rewrite Hret. split; [reflexivity|exact Hs0].
       * exact I.
     + eexists. split; [reflexivity|]. split; [|split].
-      * exists (Some a'). cbn [rs_calls rs_conn rs_done]. split; [exact Hall|split; [exact Hok|reflexivity]].
+      * exists (Some a'). cbn [rs_calls rs_conn rs_done]. split; [exact Hall|split; [exact Hok|split; [exact Hwin'|reflexivity]]].
       * exists rs. cbn [rs_calls]. rewrite Hret. split; [reflexivity|exact Hs0].
       * cbn [rs_conn]. exact Hlen.
 Qed.
@@ -383,38 +447,42 @@ Lemma conn_ok_pre c pos : conn_ok c pos -> conn_pre c pos.
 Proof. intros [H _]; exact H. Qed.
 
 (* ---- addNextFromConn on a non-empty queue *)
-Lemma add_next_spec c pos used p rest :
-  conn_pre c pos -> c_queue c = p :: rest ->
+Lemma add_next_spec c pos lo used p rest :
+  conn_pre c pos -> conn_win lo c pos -> c_queue c = p :: rest ->
   exists a' r w1, add_next (mkW c used []) = Ok w1 /\ w_ret w1 = [r] /\ chunk pos r (Some a') /\
-    conn_pre (w_c w1) (Some a') /\ c_queue (w_c w1) = rest.
+    conn_pre (w_c w1) (Some a') /\ conn_win lo (w_c w1) (Some a') /\ c_queue (w_c w1) = rest.
 Proof.
-  intros (Hns & Hpos & Hq) Hqe. destruct c as [pg q ns ls]. cbn [c_nextSeq c_queue] in *. subst q ns.
-  inversion Hq as [|x y Hp Hr]; subst.
-  destruct (pop_page_spec p pos Hp Hpos) as (a' & Hc & Hn & Ha' & _ & _).
-  unfold add_next. cbn [w_c c_queue c_nextSeq c_pages c_lastSeen w_used w_ret].
+  intros (Hns & Hpos & Hg & Hq) [Hwa Hwq] Hqe. destruct c as [pg q ns ls gp].
+  cbn [c_nextSeq c_queue c_pos] in *. subst q ns.
+  inversion Hq as [|x y Hp Hr]; subst. inversion Hwq as [|x y Hwp Hwr]; subst.
+  destruct (pop_page_spec p pos lo Hp Hpos Hwp Hwa) as (Hc & Hn & Ha' & Hw' & _).
+  unfold add_next. cbn [w_c c_queue c_nextSeq c_pages c_lastSeen c_pos w_used w_ret].
+  rewrite (pop_gpos_after pos gp p Hg).
   destruct (pop_page (enc pos) p) as [r nx]. cbn [fst snd] in *. subst nx.
-  exists a', r. eexists. split; [reflexivity|]. cbn [w_ret w_c c_queue c_nextSeq app].
-  repeat split; try assumption; lia.
+  exists (pos_after pos p), r. eexists. split; [reflexivity|]. cbn [w_ret w_c c_queue c_nextSeq c_pos app].
+  split; [reflexivity|]. split; [exact Hc|]. split; [|split; [|reflexivity]].
+  - split; [reflexivity|]. split; [cbn; lia|]. split; [|exact Hr]. intros ? [= <-]; reflexivity.
+  - split; [|exact Hwr]. intros ? [= <-]; exact Hw'.
 Qed.
 
 (* ---- skipFlush *)
-Lemma skip_flush_spec c pos pstart free used calls :
-  conn_ok c pos -> chunks pstart (concat calls) pos ->
-  exists r, skip_flush c free used calls = Ok r /\ res_ok pstart r /\
+Lemma skip_flush_spec c pos lo pstart free used calls :
+  conn_ok c pos -> conn_win lo c pos -> chunks pstart (concat calls) pos ->
+  exists r, skip_flush c free used calls = Ok r /\ res_ok lo pstart r /\
     match rs_conn r with
     | Some c' => (length (c_queue c') < length (c_queue c))%nat
     | None => True
     end.
 Proof.
-  intros Hok Hcs. unfold skip_flush. destruct (c_queue c) as [|p rest] eqn:EQ.
+  intros Hok Hwin Hcs. unfold skip_flush. destruct (c_queue c) as [|p rest] eqn:EQ.
   - eexists. split; [reflexivity|]. split; [|exact I].
     exists pos. cbn [close_connection rs_calls rs_conn rs_done]. split; [exact Hcs|reflexivity].
-  - destruct (add_next_spec c pos used p rest (conn_ok_pre _ _ Hok) EQ)
-      as (a1 & r & w1 & Hadd & Hret & Hch & Hpre & Hq1).
+  - destruct (add_next_spec c pos lo used p rest (conn_ok_pre _ _ Hok) Hwin EQ)
+      as (a1 & r & w1 & Hadd & Hret & Hch & Hpre & Hwin1 & Hq1).
     rewrite Hadd. cbn [obind].
-    destruct (add_contiguous_spec w1 a1 Hpre) as (a2 & rs & Hret2 & Hcs2 & Hok2 & _ & _ & Hlen2).
+    destruct (add_contiguous_spec w1 a1 lo Hpre Hwin1) as (a2 & rs & Hret2 & Hcs2 & Hok2 & Hwin2 & _ & _ & Hlen2).
     set (w2 := add_contiguous w1) in *.
-    destruct (send_spec w2 a2 pstart pos free calls (conn_ok_pre _ _ Hok2)) as (r' & Hs & Hres & _ & Hlen).
+    destruct (send_spec w2 a2 lo pstart pos free calls (conn_ok_pre _ _ Hok2) Hwin2) as (r' & Hs & Hres & _ & Hlen).
     + rewrite Hret2, Hret. discriminate.
     + exact Hcs.
     + rewrite Hret2, Hret. econstructor; [exact Hch|exact Hcs2].
@@ -425,18 +493,21 @@ Qed.
 (* ---- insertIntoConn: never reaches panic("wtf"); keeps the invariant; delivers at most
    one popped page (only when a limit is set) *)
 Lemma page_seq_nonneg p : page_ok p -> 0 <= p_seq p.
-Proof. intros [(o & _ & _ & Hs & _) _]. cbn [fst] in Hs. rewrite Hs. apply sq_range. Qed.
+Proof. intros (_ & _ & Hs & _). rewrite Hs. apply sq_range. Qed.
 
-Lemma insert_spec maxPer maxTotal c pos used o n e ts :
-  conn_ok c pos -> 0 <= o -> 0 <= n -> o + n <= lenZ S ->
+Lemma insert_spec maxPer maxTotal c pos lo used o n e ts :
+  conn_ok c pos -> conn_win lo c pos -> 0 <= o -> 0 <= n -> o + n <= lenZ S ->
+  inw lo o -> inw lo (o + n) ->
   (forall a, pos = Some a -> difference (sq i a) (sq i o) > 0) ->
-  exists w1, insert_into_conn maxPer maxTotal (sq i o) (sub S o n) e ts (mkW c used []) = Ok w1 /\
-    ((w_ret w1 = [] /\ conn_ok (w_c w1) pos) \/
-     (exists r a', w_ret w1 = [r] /\ chunk pos r (Some a') /\ conn_pre (w_c w1) (Some a'))) /\
-    (maxPer <= 0 -> maxTotal <= 0 -> w_ret w1 = []).
+  exists w1, insert_into_conn maxPer maxTotal (sq i o) (sub S o n) e ts o (mkW c used []) = Ok w1 /\
+    ((w_ret w1 = [] /\ conn_ok (w_c w1) pos /\ conn_win lo (w_c w1) pos) \/
+     (exists r a', w_ret w1 = [r] /\ chunk pos r (Some a') /\ conn_pre (w_c w1) (Some a') /\
+                   conn_win lo (w_c w1) (Some a'))) /\
+    (limit_cond maxPer maxTotal (c_pages c) used (lenZ (pages_from_tcp (sq i o) (sub S o n) e ts o)) = false ->
+     w_ret w1 = []).
 Proof.
-  intros [(Hns & Hpos & Hq) Hh] Ho Hn Hon Hd. unfold insert_into_conn.
-  destruct c as [pg q ns ls]. cbn [w_c w_used w_ret c_queue c_nextSeq c_pages c_lastSeen] in *. subst ns.
+  intros [(Hns & Hpos & Hg & Hq) Hh] [Hwa Hwq] Ho Hn Hon Hwo Hwon Hd. unfold insert_into_conn.
+  destruct c as [pg q ns ls gp]. cbn [w_c w_used w_ret c_queue c_nextSeq c_pages c_lastSeen c_pos] in *. subst ns.
   assert (Hwtf : match q with p :: _ => p_seq p =? enc pos | [] => false end = false).
   { destruct q as [|p t]; [reflexivity|]. inversion Hq as [|x y Hp Ht]; subst.
     pose proof (page_seq_nonneg p Hp) as Hp0.
@@ -445,36 +516,46 @@ Proof.
       assert (p_seq p = sq i a) as Heq by lia. rewrite Heq, diff_self in Hh. lia.
     - unfold invalidSequence. lia. }
   rewrite Hwtf.
-  pose proof (pages_from_tcp_ok o n e ts Ho Hn Hon) as Hps.
-  destruct (pages_from_tcp_head (sq i o) (sub S o n) e ts) as (p0 & pt & Eps & Hp0).
-  set (ps := pages_from_tcp (sq i o) (sub S o n) e ts) in *.
+  destruct (pages_from_tcp_ok o n e ts Ho Hn Hon) as [Hps Hpsb].
+  destruct (pages_from_tcp_head (sq i o) (sub S o n) e ts o) as (p0 & pt & Eps & Hp0).
+  set (ps := pages_from_tcp (sq i o) (sub S o n) e ts o) in *.
+  assert (Hpsw : Forall (page_in lo) ps).
+  { eapply Forall_impl; [|exact Hpsb]. cbn beta. intros p [H1 H2].
+    assert (p_off p <= page_end p) by (unfold page_end; pose proof (lenZ_nonneg (r_bytes (p_r p))); lia).
+    unfold page_in, inw in *. lia. }
   destruct (traverse q (sq i o)) as [qa qb] eqn:ET.
   pose proof (traverse_split _ _ _ _ ET) as Hsplit. subst q.
   assert (Hq1 : Forall page_ok (qa ++ ps ++ qb)).
   { apply Forall_app in Hq. destruct Hq as [Hqa Hqb].
     apply Forall_app; split; [exact Hqa|]. apply Forall_app; split; assumption. }
+  assert (Hqw1 : Forall (page_in lo) (qa ++ ps ++ qb)).
+  { apply Forall_app in Hwq. destruct Hwq as [Hqa Hqb].
+    apply Forall_app; split; [exact Hqa|]. apply Forall_app; split; assumption. }
   assert (Hh1 : head_ok pos (qa ++ ps ++ qb)).
   { destruct qa as [|x qa']; [|exact Hh]. cbn [app]. rewrite Eps. cbn [app].
     destruct pos as [a|]; cbn [head_ok]; [|exact I]. rewrite Hp0. apply Hd; reflexivity. }
-  set (c1 := mkC (pg + lenZ ps) (qa ++ ps ++ qb) (enc pos) ls).
+  set (c1 := mkC (pg + lenZ ps) (qa ++ ps ++ qb) (enc pos) ls gp).
   assert (Hc1 : conn_ok c1 pos) by (repeat split; assumption).
+  assert (Hw1 : conn_win lo c1 pos) by (split; assumption).
   destruct (((maxPer >? 0) && (pg + lenZ ps >=? maxPer)) || ((maxTotal >? 0) && (used + lenZ ps >=? maxTotal))) eqn:EL.
   - assert (exists p1 r1, qa ++ ps ++ qb = p1 :: r1) as (p1 & r1 & Eq1).
     { destruct qa as [|x qa']; cbn [app]; [rewrite Eps; cbn [app]|]; eexists; eexists; reflexivity. }
-    destruct (add_next_spec c1 pos (used + lenZ ps) p1 r1 (conn_ok_pre _ _ Hc1) Eq1)
-      as (a' & r & w1 & Hadd & Hret & Hch & Hpre & _).
+    destruct (add_next_spec c1 pos lo (used + lenZ ps) p1 r1 (conn_ok_pre _ _ Hc1) Hw1 Eq1)
+      as (a' & r & w1 & Hadd & Hret & Hch & Hpre & Hwin' & _).
     exists w1. split; [exact Hadd|]. split.
-    + right. exists r, a'. split; [|split]; assumption.
-    + intros H1 H2. exfalso. lia.
-  - eexists. split; [reflexivity|]. cbn [w_ret w_c]. split; [left; split; [reflexivity|exact Hc1]|reflexivity].
+    + right. exists r, a'. split; [|split; [|split]]; assumption.
+    + intros H1. exfalso. unfold limit_cond in H1. cbn [c_pages] in H1. fold ps in H1. congruence.
+  - eexists. split; [reflexivity|]. cbn [w_ret w_c].
+    split; [left; split; [reflexivity|split; [exact Hc1|exact Hw1]]|reflexivity].
 Qed.
 
-(* ---- consistent operations: every segment carries bytes of S at its offset; the SYN is at i *)
+(* ---- consistent operations: every segment carries bytes of S at its (ghost) offset; the
+   SYN is at i and carries S[0,n) *)
 Definition op_ok (o : op) : Prop :=
   match o with
-  | Segment seq syn fin rst payload ts =>
-    if syn then seq = i /\ lenZ payload <= lenZ S /\ payload = sub S 0 (lenZ payload)
-    else exists o, 0 <= o /\ o + lenZ payload <= lenZ S /\ seq = sq i o /\ payload = sub S o (lenZ payload)
+  | Segment seq syn fin rst payload ts goff =>
+    if syn then seq = i /\ goff = 0 /\ lenZ payload <= lenZ S /\ payload = sub S 0 (lenZ payload)
+    else 0 <= goff /\ goff + lenZ payload <= lenZ S /\ seq = sq i goff /\ payload = sub S goff (lenZ payload)
   | _ => True
   end.
 
@@ -482,185 +563,234 @@ Definition state_ok (st : state) (pos : option Z) : Prop :=
   s_dead st = false /\
   match s_conn st with None => pos = None | Some c => conn_ok c pos end.
 
+(* window hypothesis for one step: the live offsets lie in an interval of width < 2^30 *)
+Definition W_step (st : state) (o : op) : Prop := exists lo, Forall (inw lo) (live_offsets st o).
+
 (* result of one API call *)
 Definition call_ok (pos : option Z) (st' : state) (ou : out) : Prop :=
   o_panic ou = false /\
   exists pos', chunks pos (concat (o_calls ou)) pos' /\
                state_ok st' (if o_done ou then None else pos').
 
-Lemma res_to_call pos r mp mt isnew :
-  res_ok pos r ->
+Lemma res_to_call lo pos r mp mt isnew :
+  res_ok lo pos r ->
   call_ok pos (mkS (rs_conn r) (rs_free r) (rs_used r) mp mt false)
               (mkOut isnew (rs_calls r) (rs_done r) false).
 Proof.
   intros (pos' & Hc & Hm). split; [reflexivity|]. exists pos'. cbn [o_calls o_done]. split; [exact Hc|].
   split; [reflexivity|]. cbn [s_conn]. destruct (rs_conn r).
-  - destruct Hm as [Hok Hd]. rewrite Hd. exact Hok.
+  - destruct Hm as (Hok & _ & Hd). rewrite Hd. exact Hok.
   - rewrite Hm. reflexivity.
 Qed.
-
-Lemma conn_lastSeen_irrelevant pg q ns ls ls' pos :
-  conn_ok (mkC pg q ns ls) pos -> conn_ok (mkC pg q ns ls') pos.
-Proof. intros H; exact H. Qed.
 
 Definition out_skip0 (ou : out) : Prop := Forall skip0 (concat (o_calls ou)).
 
 (* ---- the tail of AssembleWithTimestamp *)
-Lemma finish_spec st isnew pos w :
-  ((w_ret w = [] /\ conn_ok (w_c w) pos) \/
-   (exists a', w_ret w <> [] /\ chunks pos (w_ret w) (Some a') /\ conn_pre (w_c w) (Some a'))) ->
+Lemma finish_spec st isnew pos lo w :
+  ((w_ret w = [] /\ conn_ok (w_c w) pos /\ conn_win lo (w_c w) pos) \/
+   (exists a', w_ret w <> [] /\ chunks pos (w_ret w) (Some a') /\ conn_pre (w_c w) (Some a') /\
+               conn_win lo (w_c w) (Some a'))) ->
   let r := finish_assemble st isnew (Ok w) in
   call_ok pos (fst r) (snd r) /\ (Forall skip0 (w_ret w) -> out_skip0 (snd r)).
 Proof.
   intros H. unfold finish_assemble. cbn [obind].
-  destruct H as [[Hret Hok]|(a' & Hne & Hcs & Hpre)].
+  destruct H as [(Hret & Hok & Hwin)|(a' & Hne & Hcs & Hpre & Hwin)].
   - rewrite Hret. cbn [isnil fst snd]. split.
-    + apply (res_to_call pos (mkRes (Some (w_c w)) (s_freeLastSeen st) (w_used w) [] false)).
-      exists pos. cbn [rs_calls rs_conn rs_done concat]. split; [constructor|split; [exact Hok|reflexivity]].
+    + apply (res_to_call lo pos (mkRes (Some (w_c w)) (s_freeLastSeen st) (w_used w) [] false)).
+      exists pos. cbn [rs_calls rs_conn rs_done concat]. split; [constructor|split; [exact Hok|split; [exact Hwin|reflexivity]]].
     + intros _. constructor.
   - destruct (w_ret w) as [|r0 rt] eqn:ER; [congruence|]. cbn [isnil].
-    destruct (send_spec w a' pos pos (s_freeLastSeen st) []) as (r & Hs & Hres & (rs & Hcalls & Hs0) & _).
+    destruct (send_spec w a' lo pos pos (s_freeLastSeen st) []) as (r & Hs & Hres & (rs & Hcalls & Hs0) & _).
     + exact Hpre.
+    + exact Hwin.
     + rewrite ER; discriminate.
     + constructor.
     + rewrite ER; exact Hcs.
-    + rewrite Hs. cbn [fst snd]. split; [apply res_to_call; exact Hres|].
+    + rewrite Hs. cbn [fst snd]. split; [eapply res_to_call; exact Hres|].
       intros Hsk. unfold out_skip0. cbn [o_calls]. rewrite Hcalls. cbn [app concat].
       rewrite app_nil_r, ER. apply Forall_app; split; assumption.
 Qed.
 
 (* the in-order / retransmission path, in offsets *)
 Lemma fast_chunk a o n e ts cut : 0 <= o -> 0 <= n -> o + n <= lenZ S -> 0 <= a <= lenZ S -> o <= a ->
-  exists a', snd (byte_span (sq i a) (sq i o) (sub S o n)) = sq i a' /\ a <= a' <= lenZ S /\
-    chunk (Some a) (mkR (fst (byte_span (sq i a) (sq i o) (sub S o n))) 0 false e ts cut) (Some a').
+  a - o < quarter ->
+  snd (byte_span (sq i a) (sq i o) (sub S o n)) = sq i (Z.max a (o + n)) /\
+  chunk (Some a) (mkR (fst (byte_span (sq i a) (sq i o) (sub S o n))) 0 false e ts cut) (Some (Z.max a (o + n))).
 Proof.
-  intros Ho Hn Hon Ha Hoa. rewrite byte_span_spec by (unfold quarter in *; lia).
+  intros Ho Hn Hon Ha Hoa Hw. rewrite byte_span_spec by (unfold quarter in *; lia).
   destruct (a <=? o) eqn:E1; [|destruct (o + n <? a) eqn:E2]; cbn [fst snd].
-  - exists (o + n). split; [reflexivity|]. split; [lia|].
+  - replace (Z.max a (o + n)) with (o + n) by lia. split; [reflexivity|].
     apply ch_known'; cbn [r_start r_skip r_bytes]; rewrite ?sub_length by lia; try lia; try reflexivity.
     f_equal; lia.
-  - exists a. split; [reflexivity|]. split; [lia|].
+  - replace (Z.max a (o + n)) with a by lia. split; [reflexivity|].
     apply ch_known'; cbn [r_start r_skip r_bytes]; change (lenZ (@nil Z)) with 0; try lia; reflexivity.
-  - exists (o + n). split; [reflexivity|]. split; [lia|].
+  - replace (Z.max a (o + n)) with (o + n) by lia. split; [reflexivity|].
     apply ch_known'; cbn [r_start r_skip r_bytes]; rewrite ?sub_length by lia; try lia; try reflexivity.
     f_equal; lia.
 Qed.
 
-Lemma assemble_conn_spec st c isnew pos seq syn fin rst payload ts :
-  conn_ok c pos -> op_ok (Segment seq syn fin rst payload ts) ->
-  let r := assemble_conn st c isnew seq syn fin rst payload ts in
-  call_ok pos (fst r) (snd r) /\ (s_maxPer st <= 0 -> s_maxTotal st <= 0 -> out_skip0 (snd r)).
+Lemma assemble_conn_spec st c isnew pos lo seq syn fin rst payload ts goff :
+  conn_ok c pos -> conn_win lo c pos -> op_ok (Segment seq syn fin rst payload ts goff) ->
+  inw lo goff -> inw lo (goff + lenZ payload) ->
+  let r := assemble_conn st c isnew seq syn fin rst payload ts goff in
+  call_ok pos (fst r) (snd r) /\
+  (limit_cond (s_maxPer st) (s_maxTotal st) (c_pages c) (s_used st)
+              (lenZ (pages_from_tcp seq payload (rst || fin) ts goff)) = false -> out_skip0 (snd r)).
 Proof.
-  intros Hok Hop. pose proof Hok as [(Hns & Hpos & Hq) Hh]. unfold assemble_conn.
+  intros Hok Hwin Hop Hwo Hwon. pose proof Hok as [(Hns & Hpos & Hg & Hq) Hh].
+  pose proof Hwin as [Hwa Hwq]. unfold assemble_conn.
   pose proof (lenZ_nonneg payload) as Hn0.
+  assert (Hseg : 0 <= goff /\ goff + lenZ payload <= lenZ S /\ payload = sub S goff (lenZ payload) /\
+                 (syn = true -> goff = 0 /\ seq = i) /\ (syn = false -> seq = sq i goff)).
+  { cbn [op_ok] in Hop. destruct syn.
+    - destruct Hop as (-> & -> & Hl & Hp). repeat split; try lia; try assumption; intros; discriminate.
+    - destruct Hop as (H1 & H2 & H3 & H4). repeat split; try assumption; intros; try assumption; discriminate. }
+  destruct Hseg as (Ho & Hon & Hpay & Hsyn & Hnsyn).
+  remember (lenZ payload) as n eqn:En. subst payload. rename goff into o.
   destruct pos as [a|]; cbn [enc pos_ok] in *.
   - (* position known *)
+    specialize (Hg a eq_refl). specialize (Hwa a eq_refl).
     rewrite Hns, enc_some_ne. cbn [negb]. rewrite andb_true_r.
-    assert (Hseg : exists o, 0 <= o /\ o + lenZ payload <= lenZ S /\
-                     (if syn then seq_add seq 1 else seq) = sq i o /\ payload = sub S o (lenZ payload) /\
-                     (syn = true -> o = 0) /\ (syn = false -> seq = sq i o)).
-    { cbn [op_ok] in Hop. destruct syn.
-      - destruct Hop as (-> & Hl & Hp). exists 0. rewrite syn_add1. repeat split; try lia; try assumption; try reflexivity; intros; discriminate.
-      - destruct Hop as (o & H1 & H2 & H3 & H4). exists o. repeat split; try assumption; intros; try assumption; discriminate. }
-    destruct Hseg as (o & Ho & Hon & Hseq1 & Hpay & Hsyn & Hnsyn). rewrite Hseq1.
+    assert (Hseq1 : (if syn then seq_add seq 1 else seq) = sq i o).
+    { destruct syn; [destruct (Hsyn eq_refl) as [H0 ->]; rewrite H0; apply syn_add1|apply Hnsyn; reflexivity]. }
+    rewrite Hseq1. unfold inw in *.
     rewrite diff_sq by (unfold quarter in *; lia).
-    remember (lenZ payload) as n eqn:En. subst payload.
     destruct (o - a >? 0) eqn:ED.
     + (* ahead of the position: buffered *)
-      assert (syn = false) as -> by (destruct syn; [specialize (Hsyn eq_refl); lia|reflexivity]).
+      assert (syn = false) as -> by (destruct syn; [destruct (Hsyn eq_refl); lia|reflexivity]).
       rewrite (Hnsyn eq_refl).
-      destruct (insert_spec (s_maxPer st) (s_maxTotal st) c (Some a) (s_used st) o n (rst || fin) ts
-                  Hok Ho Hn0 Hon) as (w1 & Hins & Hcases & Hnolim).
+      destruct (insert_spec (s_maxPer st) (s_maxTotal st) c (Some a) lo (s_used st) o n (rst || fin) ts
+                  Hok Hwin Ho Hn0 Hon) as (w1 & Hins & Hcases & Hnolim).
+      { unfold inw; lia. } { unfold inw; lia. }
       { intros a0 [= <-]. rewrite diff_sq by (unfold quarter in *; lia). lia. }
       rewrite Hins.
-      destruct (finish_spec st isnew (Some a) w1) as [H1 H2].
-      { destruct Hcases as [Hc|(r & a' & Hr & Hch & Hpre)]; [left; exact Hc|].
-        right. exists a'. rewrite Hr. split; [discriminate|split; [apply chunks_one; exact Hch|exact Hpre]]. }
-      split; [exact H1|]. intros L1 L2. apply H2. rewrite (Hnolim L1 L2). constructor.
+      destruct (finish_spec st isnew (Some a) lo w1) as [H1 H2].
+      { destruct Hcases as [Hc|(r & a' & Hr & Hch & Hpre & Hw')]; [left; exact Hc|].
+        right. exists a'. rewrite Hr. split; [discriminate|split; [apply chunks_one; exact Hch|split; assumption]]. }
+      split; [exact H1|]. intros L. apply H2. rewrite (Hnolim L). constructor.
     + (* at or before the position: delivered now *)
       destruct (fast_chunk a o n (rst || fin) ts
                   (n - lenZ (fst (byte_span (sq i a) (sq i o) (sub S o n)))))
-        as (a' & Hnx & Ha' & Hch); try lia.
+        as (Hnx & Hch); try lia.
       destruct (byte_span (sq i a) (sq i o) (sub S o n)) as [b nx] eqn:EB.
       cbn [fst snd] in *. subst nx.
       match goal with |- context [finish_assemble st isnew (Ok ?w0)] => set (w := w0) end.
-      destruct (finish_spec st isnew (Some a) w) as [H1 H2].
-      { right. exists a'. subst w. cbn [w_ret w_c]. split; [discriminate|].
-        split; [apply chunks_one; exact Hch|]. split; [reflexivity|split; [cbn; lia|exact Hq]]. }
-      split; [exact H1|]. intros _ _. apply H2. subst w. cbn [w_ret]. constructor; [reflexivity|constructor].
+      destruct (finish_spec st isnew (Some a) lo w) as [H1 H2].
+      { right. exists (Z.max a (o + n)). subst w. cbn [w_ret w_c]. split; [discriminate|].
+        split; [apply chunks_one; exact Hch|]. split.
+        - split; [reflexivity|split; [cbn; lia|split; [|exact Hq]]].
+          intros ? [= <-]. cbn [c_pos]. rewrite Hg. reflexivity.
+        - split; [|exact Hwq]. intros ? [= <-]. unfold inw. lia. }
+      split; [exact H1|]. intros _. apply H2. subst w. cbn [w_ret]. constructor; [reflexivity|constructor].
   - (* position unknown: nextSeq invalid *)
     rewrite Hns. change (invalidSequence =? invalidSequence) with true. cbv beta zeta iota.
-    cbn [op_ok] in Hop. destruct syn.
-    + destruct Hop as (-> & Hl & Hp). rewrite syn_add by exact Hi.
+    destruct syn.
+    + destruct (Hsyn eq_refl) as [Ho0 ->]. rewrite syn_add by exact Hi.
       match goal with |- context [finish_assemble st isnew (Ok ?w0)] => set (w := w0) end.
-      destruct (finish_spec st isnew None w) as [H1 H2].
-      { right. exists (lenZ payload). subst w. cbn [w_ret w_c]. split; [discriminate|]. split.
-        - apply chunks_one. apply ch_start'; cbn [r_start r_skip r_bytes]; try reflexivity; try lia. exact Hp.
-        - split; [reflexivity|split; [cbn; lia|exact Hq]]. }
-      split; [exact H1|]. intros _ _. apply H2. subst w. cbn [w_ret]. constructor; [reflexivity|constructor].
-    + destruct Hop as (o & Ho & Hon & -> & Hpay).
-      remember (lenZ payload) as n eqn:En. subst payload.
-      destruct (insert_spec (s_maxPer st) (s_maxTotal st) c None (s_used st) o n (rst || fin) ts
-                  Hok Ho Hn0 Hon) as (w1 & Hins & Hcases & Hnolim).
+      destruct (finish_spec st isnew None lo w) as [H1 H2].
+      { right. exists n. subst w. cbn [w_ret w_c]. split; [discriminate|]. split; [|split].
+        - apply chunks_one. apply ch_start'; cbn [r_start r_skip r_bytes]; rewrite ?sub_length by lia; try reflexivity; try lia.
+          rewrite Ho0; reflexivity.
+        - split; [reflexivity|split; [cbn; lia|split; [|exact Hq]]].
+          intros ? [= <-]. cbn [c_pos]. rewrite ?sub_length by lia. lia.
+        - split; [|exact Hwq]. intros ? [= <-]. rewrite Ho0 in Hwon. exact Hwon. }
+      split; [exact H1|]. intros _. apply H2. subst w. cbn [w_ret]. constructor; [reflexivity|constructor].
+    + rewrite (Hnsyn eq_refl).
+      destruct (insert_spec (s_maxPer st) (s_maxTotal st) c None lo (s_used st) o n (rst || fin) ts
+                  Hok Hwin Ho Hn0 Hon Hwo Hwon) as (w1 & Hins & Hcases & Hnolim).
       { intros a0 [=]. }
       rewrite Hins.
-      destruct (finish_spec st isnew None w1) as [H1 H2].
-      { destruct Hcases as [Hc|(r & a' & Hr & Hch & Hpre)]; [left; exact Hc|].
-        right. exists a'. rewrite Hr. split; [discriminate|split; [apply chunks_one; exact Hch|exact Hpre]]. }
-      split; [exact H1|]. intros L1 L2. apply H2. rewrite (Hnolim L1 L2). constructor.
+      destruct (finish_spec st isnew None lo w1) as [H1 H2].
+      { destruct Hcases as [Hc|(r & a' & Hr & Hch & Hpre & Hw')]; [left; exact Hc|].
+        right. exists a'. rewrite Hr. split; [discriminate|split; [apply chunks_one; exact Hch|split; assumption]]. }
+      split; [exact H1|]. intros L. apply H2. rewrite (Hnolim L). constructor.
 Qed.
 
 Lemma call_ok_noop st pos : state_ok st pos -> call_ok pos st no_out.
 Proof. intros H. split; [reflexivity|]. exists pos. split; [constructor|exact H]. Qed.
 
-Lemma assemble_spec st pos seq syn fin rst payload ts :
-  state_ok st pos -> op_ok (Segment seq syn fin rst payload ts) ->
-  let r := assemble st seq syn fin rst payload ts in
-  call_ok pos (fst r) (snd r) /\ (s_maxPer st <= 0 -> s_maxTotal st <= 0 -> out_skip0 (snd r)).
+(* the window of a step, read off the live offsets *)
+Lemma live_conn_win lo st o c pos :
+  Forall (inw lo) (live_offsets st o) -> s_conn st = Some c -> conn_pre c pos -> conn_win lo c pos.
 Proof.
-  intros Hst Hop. pose proof Hst as [Hdead Hconn]. unfold assemble.
+  intros HF EC (Hns & Hpos & Hg & Hq). unfold live_offsets in HF. rewrite EC in HF.
+  apply Forall_app in HF. destruct HF as [HF _]. apply Forall_app in HF. destruct HF as [HF1 HF2].
+  split.
+  - intros a ->. cbn [enc] in Hns. rewrite Hns, enc_some_ne in HF1. inversion HF1; subst.
+    rewrite <- (Hg a eq_refl). assumption.
+  - clear - HF2. induction (c_queue c) as [|p t IH]; [constructor|].
+    cbn [flat_map app] in HF2. inversion HF2 as [|x y H1 H2]; subst. inversion H2 as [|x y H3 H4]; subst.
+    constructor; [split; assumption|apply IH; exact H4].
+Qed.
+
+Lemma live_seg_win lo st seq syn fin rst payload ts goff :
+  Forall (inw lo) (live_offsets st (Segment seq syn fin rst payload ts goff)) ->
+  inw lo goff /\ inw lo (goff + lenZ payload).
+Proof.
+  intros HF. unfold live_offsets in HF. apply Forall_app in HF. destruct HF as [_ HF].
+  inversion HF as [|x y H1 H2]; subst. inversion H2; subst. split; assumption.
+Qed.
+
+Lemma assemble_spec st pos seq syn fin rst payload ts goff :
+  state_ok st pos -> op_ok (Segment seq syn fin rst payload ts goff) ->
+  W_step st (Segment seq syn fin rst payload ts goff) ->
+  let r := assemble st seq syn fin rst payload ts goff in
+  call_ok pos (fst r) (snd r) /\
+  (limit_fires st (Segment seq syn fin rst payload ts goff) = false -> out_skip0 (snd r)).
+Proof.
+  intros Hst Hop [lo HW]. pose proof Hst as [Hdead Hconn]. unfold assemble.
+  destruct (live_seg_win _ _ _ _ _ _ _ _ _ HW) as [Hwo Hwon].
   destruct (negb syn && negb fin && negb rst && isnil payload).
   { cbn [fst snd]. split; [apply call_ok_noop; exact Hst|intros; constructor]. }
   destruct (s_conn st) as [c|] eqn:EC.
-  - unfold assemble_locked. apply assemble_conn_spec; [|exact Hop].
-    destruct c as [pg q ns ls]. cbn [c_lastSeen c_pages c_queue c_nextSeq]. destruct (ls <? ts); exact Hconn.
+  - pose proof (live_conn_win lo st _ c pos HW EC (conn_ok_pre _ _ Hconn)) as Hwin.
+    unfold assemble_locked, limit_fires, conn_pages. rewrite EC.
+    destruct c as [pg q ns ls gp]; cbn [c_lastSeen c_pages c_queue c_nextSeq c_pos].
+    destruct (ls <? ts);
+      (match goal with |- context [assemble_conn st ?c1 _ _ _ _ _ _ _ _] =>
+         apply (assemble_conn_spec st c1 false pos lo seq syn fin rst payload ts goff) end; assumption).
   - subst pos. destruct (negb syn && isnil payload).
     { cbn [fst snd]. split; [apply call_ok_noop; exact Hst|intros; constructor]. }
-    unfold assemble_locked. apply assemble_conn_spec; [|exact Hop].
-    cbn [c_lastSeen c_pages c_queue c_nextSeq].
-    destruct (s_freeLastSeen st <? ts); (split; [split; [reflexivity|split; [exact I|constructor]]|exact I]).
+    unfold assemble_locked, limit_fires, conn_pages. rewrite EC.
+    cbn [c_lastSeen c_pages c_queue c_nextSeq c_pos].
+    destruct (ts <? ts);
+      (match goal with |- context [assemble_conn st ?c1 _ _ _ _ _ _ _ _] =>
+         apply (assemble_conn_spec st c1 true None lo seq syn fin rst payload ts goff) end; try assumption;
+       [split; [split; [reflexivity|split; [exact I|split; [intros ? [=]|constructor]]]|exact I]
+       |split; [intros ? [=]|constructor]]).
 Qed.
 
 (* ---- FlushAll: the loop terminates within its fuel and ends with the connection closed *)
-Lemma flush_all_loop_spec fuel : forall r pstart, res_ok pstart r ->
+Lemma flush_all_loop_spec lo fuel : forall r pstart, res_ok lo pstart r ->
   match rs_conn r with Some c => (length (c_queue c) < fuel)%nat | None => True end ->
-  exists r', flush_all_loop fuel r = Ok r' /\ res_ok pstart r'.
+  exists r', flush_all_loop fuel r = Ok r' /\ res_ok lo pstart r'.
 Proof.
   induction fuel as [|f IH]; intros r pstart Hres Hlen.
   - destruct r as [[c|] fr us cl dn]; cbn [rs_conn] in *; [lia|]. exists (mkRes None fr us cl dn). split; [reflexivity|exact Hres].
   - destruct r as [[c|] fr us cl dn]; cbn [rs_conn rs_free rs_used rs_calls flush_all_loop] in *.
-    + destruct Hres as (pos' & Hcs & Hok & Hd). cbn [rs_calls rs_conn rs_done] in *.
-      destruct (skip_flush_spec c pos' pstart fr us cl Hok Hcs) as (r1 & Hs & Hres1 & Hl1).
+    + destruct Hres as (pos' & Hcs & Hok & Hwin & Hd). cbn [rs_calls rs_conn rs_done] in *.
+      destruct (skip_flush_spec c pos' lo pstart fr us cl Hok Hwin Hcs) as (r1 & Hs & Hres1 & Hl1).
       rewrite Hs. cbn [obind]. apply IH; [exact Hres1|]. destruct (rs_conn r1); [lia|exact I].
     + exists (mkRes None fr us cl dn). split; [reflexivity|exact Hres].
 Qed.
 
-Lemma flush_all_spec st pos : state_ok st pos ->
+Lemma flush_all_spec st pos : state_ok st pos -> W_step st FlushAll ->
   call_ok pos (fst (flush_all st)) (snd (flush_all st)).
 Proof.
-  intros Hst. pose proof Hst as [Hdead Hconn]. unfold flush_all.
+  intros Hst [lo HW]. pose proof Hst as [Hdead Hconn]. unfold flush_all.
   destruct (s_conn st) as [c|] eqn:EC; [|apply call_ok_noop; exact Hst].
-  destruct (flush_all_loop_spec (Datatypes.S (length (c_queue c)))
+  pose proof (live_conn_win lo st _ c pos HW EC (conn_ok_pre _ _ Hconn)) as Hwin.
+  destruct (flush_all_loop_spec lo (Datatypes.S (length (c_queue c)))
               (mkRes (Some c) (s_freeLastSeen st) (s_used st) [] false) pos) as (r' & Hr & Hres).
-  - exists pos. cbn [rs_calls rs_conn rs_done concat]. split; [constructor|split; [exact Hconn|reflexivity]].
+  - exists pos. cbn [rs_calls rs_conn rs_done concat]. split; [constructor|split; [exact Hconn|split; [exact Hwin|reflexivity]]].
   - cbn [rs_conn]. lia.
-  - rewrite Hr. cbn [fst snd]. apply res_to_call; exact Hres.
+  - rewrite Hr. cbn [fst snd]. eapply res_to_call; exact Hres.
 Qed.
 
 (* ---- FlushOlderThan *)
-Lemma flush_older_loop_spec t fuel : forall r pstart, res_ok pstart r ->
+Lemma flush_older_loop_spec lo t fuel : forall r pstart, res_ok lo pstart r ->
   match rs_conn r with Some c => (length (c_queue c) <= fuel)%nat | None => True end ->
-  exists r', flush_older_loop fuel t r = Ok r' /\ res_ok pstart r'.
+  exists r', flush_older_loop fuel t r = Ok r' /\ res_ok lo pstart r'.
 Proof.
   induction fuel as [|f IH]; intros r pstart Hres Hlen.
   - destruct r as [[c|] fr us cl dn]; cbn [rs_conn rs_free rs_used rs_calls flush_older_loop] in *.
@@ -670,44 +800,45 @@ Proof.
   - destruct r as [[c|] fr us cl dn]; cbn [rs_conn rs_free rs_used rs_calls flush_older_loop] in *.
     + destruct (c_queue c) as [|p q] eqn:EQ; [eexists; split; [reflexivity|exact Hres]|].
       destruct (r_seen (p_r p) <? t); [|eexists; split; [reflexivity|exact Hres]].
-      pose proof Hres as (pos' & Hcs & Hok & Hd). cbn [rs_calls rs_conn rs_done] in *.
-      destruct (skip_flush_spec c pos' pstart fr us cl Hok Hcs) as (r1 & Hs & Hres1 & Hl1).
+      pose proof Hres as (pos' & Hcs & Hok & Hwin & Hd). cbn [rs_calls rs_conn rs_done] in *.
+      destruct (skip_flush_spec c pos' lo pstart fr us cl Hok Hwin Hcs) as (r1 & Hs & Hres1 & Hl1).
       rewrite Hs. cbn [obind]. apply IH; [exact Hres1|].
       destruct (rs_conn r1); [rewrite EQ in Hl1; cbn [length] in *; lia|exact I].
     + eexists; split; [reflexivity|exact Hres].
 Qed.
 
-Lemma flush_older_spec st pos t : state_ok st pos ->
+Lemma flush_older_spec st pos t : state_ok st pos -> W_step st (FlushOlderThan t) ->
   call_ok pos (fst (flush_older st t)) (snd (flush_older st t)).
 Proof.
-  intros Hst. pose proof Hst as [Hdead Hconn]. unfold flush_older.
+  intros Hst [lo HW]. pose proof Hst as [Hdead Hconn]. unfold flush_older.
   destruct (s_conn st) as [c|] eqn:EC; [|apply call_ok_noop; exact Hst].
-  destruct (flush_older_loop_spec t (length (c_queue c))
+  pose proof (live_conn_win lo st _ c pos HW EC (conn_ok_pre _ _ Hconn)) as Hwin.
+  destruct (flush_older_loop_spec lo t (length (c_queue c))
               (mkRes (Some c) (s_freeLastSeen st) (s_used st) [] false) pos) as (r' & Hr & Hres).
-  - exists pos. cbn [rs_calls rs_conn rs_done concat]. split; [constructor|split; [exact Hconn|reflexivity]].
+  - exists pos. cbn [rs_calls rs_conn rs_done concat]. split; [constructor|split; [exact Hconn|split; [exact Hwin|reflexivity]]].
   - cbn [rs_conn]. lia.
   - rewrite Hr. cbn [obind].
     destruct (rs_conn r') as [c1|] eqn:EC1.
     + destruct (isnil (c_queue c1) && (c_lastSeen c1 <? t)).
-      * cbn [fst snd]. apply (res_to_call pos (close_connection c1 (rs_free r') (rs_used r') (rs_calls r'))).
+      * cbn [fst snd]. apply (res_to_call lo pos (close_connection c1 (rs_free r') (rs_used r') (rs_calls r'))).
         destruct Hres as (pos' & Hcs & _). exists pos'. cbn [close_connection rs_calls rs_conn rs_done].
         split; [exact Hcs|reflexivity].
-      * cbn [fst snd]. apply res_to_call; exact Hres.
-    + cbn [fst snd]. apply res_to_call; exact Hres.
+      * cbn [fst snd]. eapply res_to_call; exact Hres.
+    + cbn [fst snd]. eapply res_to_call; exact Hres.
 Qed.
 
-Definition is_segment (o : op) : bool := match o with Segment _ _ _ _ _ _ => true | _ => false end.
+Definition is_segment (o : op) : bool := match o with Segment _ _ _ _ _ _ _ => true | _ => false end.
 
-Lemma step_spec st pos o : state_ok st pos -> op_ok o ->
+Lemma step_spec st pos o : state_ok st pos -> op_ok o -> W_step st o ->
   call_ok pos (fst (step st o)) (snd (step st o)) /\
-  (is_segment o = true -> s_maxPer st <= 0 -> s_maxTotal st <= 0 -> out_skip0 (snd (step st o))).
+  (is_segment o = true -> limit_fires st o = false -> out_skip0 (snd (step st o))).
 Proof.
-  intros Hst Hop. pose proof Hst as [Hdead _]. unfold step. rewrite Hdead.
-  destruct o as [seq syn fin rst payload ts|t|].
-  - destruct (assemble_spec st pos seq syn fin rst payload ts Hst Hop) as [H1 H2].
+  intros Hst Hop HW. pose proof Hst as [Hdead _]. unfold step. rewrite Hdead.
+  destruct o as [seq syn fin rst payload ts goff|t|].
+  - destruct (assemble_spec st pos seq syn fin rst payload ts goff Hst Hop HW) as [H1 H2].
     split; [exact H1|intros _; exact H2].
-  - split; [apply flush_older_spec; exact Hst|discriminate].
-  - split; [apply flush_all_spec; exact Hst|discriminate].
+  - split; [apply flush_older_spec; assumption|discriminate].
+  - split; [apply flush_all_spec; assumption|discriminate].
 Qed.
 
 Lemma finish_limits st isnew ow :
@@ -719,7 +850,7 @@ Lemma step_limits st o :
   s_maxPer (fst (step st o)) = s_maxPer st /\ s_maxTotal (fst (step st o)) = s_maxTotal st.
 Proof.
   unfold step. destruct (s_dead st); [split; reflexivity|].
-  destruct o as [seq syn fin rst payload ts|t|].
+  destruct o as [seq syn fin rst payload ts goff|t|].
   - unfold assemble. destruct (negb syn && negb fin && negb rst && isnil payload); [split; reflexivity|].
     destruct (s_conn st); [apply finish_limits|].
     destruct (negb syn && isnil payload); [split; reflexivity|apply finish_limits].
@@ -730,20 +861,28 @@ Proof.
 Qed.
 
 (* ---- the whole history *)
-Fixpoint trace_ok (nolimit : bool) (pos : option Z) (l : list (op * out)) : Prop :=
+Fixpoint trace_ok (pos : option Z) (l : list (state * op * out)) : Prop :=
   match l with
   | [] => True
-  | (o, ou) :: t =>
+  | (st, o, ou) :: t =>
     o_panic ou = false /\
-    (nolimit = true -> is_segment o = true -> out_skip0 ou) /\
+    (is_segment o = true -> limit_fires st o = false -> out_skip0 ou) /\
     exists pos', chunks pos (concat (o_calls ou)) pos' /\
-                 trace_ok nolimit (if o_done ou then None else pos') t
+                 trace_ok (if o_done ou then None else pos') t
   end.
 
-Fixpoint outs (st : state) (ops : list op) : list (op * out) :=
+(* the run, each step with its pre-state, operation and output *)
+Fixpoint outs (st : state) (ops : list op) : list (state * op * out) :=
   match ops with
   | [] => []
-  | o :: t => (o, snd (step st o)) :: outs (fst (step st o)) t
+  | o :: t => (st, o, snd (step st o)) :: outs (fst (step st o)) t
+  end.
+
+(* the window hypothesis W along the run *)
+Fixpoint W_run (st : state) (ops : list op) : Prop :=
+  match ops with
+  | [] => True
+  | o :: t => W_step st o /\ W_run (fst (step st o)) t
   end.
 
 Lemma outs_run st ops : map snd (outs st ops) = map fst (run_trace st ops).
@@ -752,20 +891,50 @@ Proof.
   cbn [outs run_trace map]. destruct (step st o) as [st' ou]. cbn [fst snd map]. f_equal. apply IH.
 Qed.
 
-Lemma stream_inv ops : forall st pos, state_ok st pos -> Forall op_ok ops ->
-  trace_ok ((s_maxPer st <=? 0) && (s_maxTotal st <=? 0)) pos (outs st ops).
+Lemma stream_inv ops : forall st pos, state_ok st pos -> Forall op_ok ops -> W_run st ops ->
+  trace_ok pos (outs st ops).
 Proof.
-  induction ops as [|o t IH]; intros st pos Hst Hops; [exact I|].
-  inversion Hops as [|x y Ho Ht]; subst. cbn [outs trace_ok].
-  destruct (step_spec st pos o Hst Ho) as [[Hp (pos' & Hcs & Hst')] Hsk].
-  split; [exact Hp|]. split; [intros Hl Hseg; apply Hsk; [exact Hseg|lia|lia]|].
-  exists pos'. split; [exact Hcs|].
-  destruct (step_limits st o) as [L1 L2].
-  specialize (IH _ _ Hst' Ht). rewrite L1, L2 in IH. exact IH.
+  induction ops as [|o t IH]; intros st pos Hst Hops HW; [exact I|].
+  inversion Hops as [|x y Ho Ht]; subst. cbn [outs trace_ok]. destruct HW as [HW1 HW2].
+  destruct (step_spec st pos o Hst Ho HW1) as [[Hp (pos' & Hcs & Hst')] Hsk].
+  split; [exact Hp|]. split; [exact Hsk|].
+  exists pos'. split; [exact Hcs|]. exact (IH _ _ Hst' Ht HW2).
 Qed.
 
 Lemma init_ok mp mt : state_ok (init mp mt) None.
 Proof. split; reflexivity. Qed.
+
+(* streams shorter than 2^30 bytes satisfy the window hypothesis by themselves *)
+Lemma small_W st pos o : lenZ S < quarter -> state_ok st pos -> op_ok o -> W_step st o.
+Proof.
+  intros HS [_ Hconn] Hop. exists 0. unfold live_offsets. apply Forall_app; split.
+  - destruct (s_conn st) as [c|]; [|constructor].
+    destruct Hconn as [(Hns & Hpos & Hg & Hq) _]. apply Forall_app; split.
+    + destruct pos as [a|]; cbn [enc pos_ok] in *.
+      * rewrite Hns, enc_some_ne. constructor; [|constructor]. rewrite (Hg a eq_refl). unfold inw. lia.
+      * rewrite Hns. constructor.
+    + clear - Hq HS. induction (c_queue c) as [|p t IH]; [constructor|].
+      inversion Hq as [|x y Hp Ht]; subst. cbn [flat_map app].
+      destruct Hp as (H1 & H2 & _).
+      assert (p_off p <= page_end p) by (unfold page_end; pose proof (lenZ_nonneg (r_bytes (p_r p))); lia).
+      constructor; [unfold inw; lia|constructor; [unfold inw; lia|apply IH; exact Ht]].
+  - destruct o as [seq syn fin rst payload ts goff|t|]; try constructor.
+    + cbn [op_ok] in Hop. pose proof (lenZ_nonneg payload). destruct syn.
+      * destruct Hop as (_ & -> & Hl & _). unfold inw. lia.
+      * destruct Hop as (H1 & H2 & _). unfold inw. lia.
+    + constructor; [|constructor]. cbn [op_ok] in Hop. pose proof (lenZ_nonneg payload). destruct syn.
+      * destruct Hop as (_ & -> & Hl & _). unfold inw. lia.
+      * destruct Hop as (H1 & H2 & _). unfold inw. lia.
+Qed.
+
+Lemma small_W_run ops : lenZ S < quarter -> forall st pos, state_ok st pos -> Forall op_ok ops -> W_run st ops.
+Proof.
+  intros HS. induction ops as [|o t IH]; intros st pos Hst Hops; [exact I|].
+  inversion Hops as [|x y Ho Ht]; subst. cbn [W_run].
+  pose proof (small_W st pos o HS Hst Ho) as HW. split; [exact HW|].
+  destruct (step_spec st pos o Hst Ho HW) as [[_ (pos' & _ & Hst')] _].
+  eapply IH; eassumption.
+Qed.
 
 End Stream.
 
@@ -773,10 +942,10 @@ End Stream.
 (* A segment whose sequence number is exactly nextSeq, arriving on a connection with nothing
    buffered, is handed over at once, whole, with Skip = 0, and nextSeq advances by its
    length (mod 2^32); FIN/RST closes the connection.  No hypothesis on the stream. *)
-Lemma inorder_path st c ns fin rst payload ts :
+Lemma inorder_path st c ns fin rst payload ts goff :
   s_dead st = false -> s_conn st = Some c -> c_queue c = [] -> c_nextSeq c = ns ->
   0 <= ns < uint32Size -> (payload <> [] \/ fin = true \/ rst = true) ->
-  let r := step st (Segment ns false fin rst payload ts) in
+  let r := step st (Segment ns false fin rst payload ts goff) in
   o_calls (snd r) = [[mkR payload 0 false (rst || fin) ts 0]] /\
   o_new (snd r) = false /\ o_panic (snd r) = false /\ o_done (snd r) = (rst || fin) /\
   (if rst || fin then s_conn (fst r) = None
@@ -785,21 +954,14 @@ Proof.
   intros Hd Hc Hq Hns Hr Hne. unfold step. rewrite Hd. unfold assemble.
   assert (Hu : negb false && negb fin && negb rst && isnil payload = false).
   { destruct payload; destruct fin; destruct rst; try reflexivity. destruct Hne as [H|[H|H]]; congruence. }
-  rewrite Hu, Hc. unfold assemble_locked, assemble_conn.
+  rewrite Hu, Hc. unfold assemble_locked.
   assert (Hcc : forall c1 : conn, c_queue c1 = [] -> c_nextSeq c1 = ns ->
-    let r := finish_assemble st false
-      (if c_nextSeq c1 =? invalidSequence then
-         if false then Ok (mkW (mkC (c_pages c1) (c_queue c1) (seq_add ns (lenZ payload + 1)) (c_lastSeen c1)) (s_used st) [mkR payload 0 true false ts 0])
-         else insert_into_conn (s_maxPer st) (s_maxTotal st) ns payload (rst || fin) ts (mkW c1 (s_used st) [])
-       else if difference (c_nextSeq c1) (if false && negb (c_nextSeq c1 =? invalidSequence) then seq_add ns 1 else ns) >? 0 then
-         insert_into_conn (s_maxPer st) (s_maxTotal st) ns payload (rst || fin) ts (mkW c1 (s_used st) [])
-       else let '(b, nx) := byte_span (c_nextSeq c1) (if false && negb (c_nextSeq c1 =? invalidSequence) then seq_add ns 1 else ns) payload in
-         Ok (mkW (mkC (c_pages c1) (c_queue c1) nx (c_lastSeen c1)) (s_used st) [mkR b 0 false (rst || fin) ts (lenZ payload - lenZ b)])) in
+    let r := assemble_conn st c1 false ns false fin rst payload ts goff in
     o_calls (snd r) = [[mkR payload 0 false (rst || fin) ts 0]] /\
     o_new (snd r) = false /\ o_panic (snd r) = false /\ o_done (snd r) = (rst || fin) /\
     (if rst || fin then s_conn (fst r) = None
      else exists c', s_conn (fst r) = Some c' /\ c_nextSeq c' = seq_add ns (lenZ payload) /\ c_queue c' = [])).
-  { intros c1 Hq1 Hn1. rewrite Hn1, Hq1. cbn [andb].
+  { intros c1 Hq1 Hn1. unfold assemble_conn. rewrite Hn1, Hq1. cbn [andb].
     replace (ns =? invalidSequence) with false by (unfold invalidSequence, uint32Size in *; lia).
     rewrite diff_self. cbn [Z.gtb Z.compare].
     unfold byte_span. replace (ns =? invalidSequence) with false by (unfold invalidSequence, uint32Size in *; lia).
